@@ -27,7 +27,7 @@ import subprocess
 import z3
 from engine import build, eir, eir_lin, loopcut, irparse
 from engine.dom_lin import LinCtx, LV
-from engine.eir import Ptr, Obj, is_conc, ExecError
+from engine.eir import Ptr, Obj, is_conc, ExecError, MemViolation
 from engine.framework import Violation, Inconclusive
 
 B = "embedded_pairing::bls12_381::"
@@ -106,6 +106,8 @@ def install_group(I, log):
             z = I.load_bytes(p.obj, p.off + 2 * fs, fs)
             if is_conc(z) and z == 0:
                 return 0
+        if I.unwritten(p.obj, p.off, size):
+            raise MemViolation("uninit", "read of an uninitialised group element at %r" % (p,))
         raise ExecError("abstract-bytes", "group element expected at %r" % (p,))
 
     def wr(p, size, e):
